@@ -162,6 +162,24 @@ def extract(repo):
         st = find(r'#\[cfg\(feature = "std"\)\]\s*static\s+(?:mut\s+)?DFLT_ROUNDING_MODE[^=]*=\s*[^;]*RoundingMode::(\w+)', std_part, "DFLT_ROUNDING_MODE")
         c["DFLT_MODE_THREAD_LOCAL"] = False
         c["DFLT_MODE_INIT"] = st.group(1)
+    # the `Decimal` struct: its fields and the feature-gated glue attached to it by attributes
+    libs = (repo / "src/lib.rs").read_text()
+    m = find(r"((?:\s*(?://[^\n]*|#\[(?:[^\[\]]|\[[^\]]*\])*\])\s*)*)pub struct Decimal \{(.*?)\n\}", libs, "struct Decimal")
+    attrs, fields = re.sub(r"//[^\n]*", "", m.group(1)), m.group(2)
+    c["DECIMAL_FIELDS"] = re.findall(r"^\s*(?:pub(?:\([a-z]+\))?\s+)?(\w+):\s*([\w:<>]+),", fields, re.M)
+    sa = find(r'#\[cfg_attr\(\s*feature = "serde-as-str",(.*?)\)\]', attrs, "serde-as-str attribute of Decimal").group(1)
+    c["SERDE_DERIVES"] = re.findall(r"serde::(\w+)", find(r"derive\(([^)]*)\)", sa, "serde derive").group(1))
+    c["SERDE_INTO"] = find(r'serde\(\s*into = "(\w+)"\s*\)', sa, "serde(into)").group(1)
+    c["SERDE_TRY_FROM"] = find(r'serde\(\s*try_from = "(\w+)"\s*\)', sa, "serde(try_from)").group(1)
+    c["SERDE_OTHER_ATTRS"] = len(re.findall(r"\bserde\(", sa)) - 2
+    # hand-written serde impls anywhere in the crate would bypass the derive
+    allsrc = "".join(p_.read_text() for p_ in sorted((repo / "src").rglob("*.rs")))
+    c["SERDE_MANUAL_IMPLS"] = len(re.findall(r"impl\b[^{;]*\b(?:Serialize|Deserialize)\b[^{;]*\bfor\s+Decimal\b", re.sub(r"//[^\n]*", "", allsrc))) \
+        - len(re.findall(r"impl\b[^{;]*\brkyv::(?:Serialize|Deserialize)\b[^{;]*\bfor\s+Decimal\b", re.sub(r"//[^\n]*", "", allsrc)))
+    ra = find(r'#\[cfg_attr\(\s*all\(feature = "rkyv", not\(feature = "packed"\)\),(.*?)\)\]\s*#\[cfg_attr\(feature = "packed"', attrs, "rkyv attribute of Decimal").group(1)
+    c["RKYV_DERIVES"] = re.findall(r"rkyv::(\w+)", find(r"derive\(([^)]*)\)", ra, "rkyv derive").group(1))
+    m = find(r'#\[cfg\(all\(feature = "rkyv", feature = "packed"\)\)\]\s*#\[derive\(Copy, Clone\)\]\s*#\[repr\(C, packed\)\]\s*pub struct ArchivedDecimal \{(.*?)\n\}', libs, "struct ArchivedDecimal (packed)")
+    c["ARCHIVED_FIELDS"] = re.findall(r"^\s*(?:pub(?:\([a-z]+\))?\s+)?(\w+):\s*([\w:<>]+),", m.group(1), re.M)
     m = find(r"pub enum RoundingMode \{(.*?)\n\}", rnd, "enum RoundingMode")
     c["ROUNDING_MODE_VARIANTS"] = re.findall(r"^\s*(Round\w+),", m.group(1), re.M)
     return c
@@ -205,6 +223,19 @@ def render(c):
     L.append("/-- default rounding mode: storage class (`true` = `thread_local!`) and initial variant -/")
     L.append(f"def DFLT_MODE_THREAD_LOCAL : Bool := {'true' if c['DFLT_MODE_THREAD_LOCAL'] else 'false'}")
     L.append(f"def DFLT_MODE_INIT : String := \"{c['DFLT_MODE_INIT']}\"")
+    L.append("/-- the `Decimal` struct and its feature-gated glue (src/lib.rs): fields, serde-as-str attributes, rkyv derives, packed mirror -/")
+    def pairs(xs):
+        return "[" + ", ".join(f'("{a}", "{b}")' for a, b in xs) + "]"
+    def strs(xs):
+        return "[" + ", ".join(f'"{a}"' for a in xs) + "]"
+    L.append(f"def DECIMAL_FIELDS : List (String × String) := {pairs(c['DECIMAL_FIELDS'])}")
+    L.append(f"def ARCHIVED_FIELDS : List (String × String) := {pairs(c['ARCHIVED_FIELDS'])}")
+    L.append(f"def SERDE_DERIVES : List String := {strs(c['SERDE_DERIVES'])}")
+    L.append(f"def SERDE_INTO : String := \"{c['SERDE_INTO']}\"")
+    L.append(f"def SERDE_TRY_FROM : String := \"{c['SERDE_TRY_FROM']}\"")
+    L.append(f"def SERDE_OTHER_ATTRS : Nat := {c['SERDE_OTHER_ATTRS']}")
+    L.append(f"def SERDE_MANUAL_IMPLS : Nat := {c['SERDE_MANUAL_IMPLS']}")
+    L.append(f"def RKYV_DERIVES : List String := {strs(c['RKYV_DERIVES'])}")
     L.append("def ROUNDING_MODE_VARIANTS : List String := [" + ", ".join(f'"{v}"' for v in c["ROUNDING_MODE_VARIANTS"]) + "]")
     L.append("")
     L.append("end Fpdec.Gen")
